@@ -154,7 +154,7 @@ class SimRawStdout(io.RawIOBase):
             self.pending_error = None
             if persistent:
                 self.dead = name
-            sim.deliver(fault, at=len(self.accepted))
+            sim.log("write_error_after_short_count", kind=name, at=len(self.accepted))
             raise _oserror(name)
         pos = len(self.accepted)
         end = pos + len(data)
@@ -177,7 +177,9 @@ class SimRawStdout(io.RawIOBase):
                 k = at - pos
                 self.accepted += data[:k]
                 self.pending_error = (fault["kind"], persistent, fault)
-                sim.log("write_partial", at=pos, accepted=k, of=len(data))
+                # The device has started to fail: from the tool's point of view the fault is
+                # delivered now (a short count came back), whether or not it ever writes again.
+                sim.deliver(dict(fault, stage="short count before the error"), at=pos, accepted=k, of=len(data))
                 return k
             if persistent:
                 self.dead = fault["kind"]
